@@ -5,6 +5,7 @@ package index
 
 import (
 	"net/url"
+	"sort"
 	"time"
 
 	"perkeep.org/internal/vrt"
@@ -51,3 +52,15 @@ func (c *Corpus) VerifAddDeletion(target, deleter blob.Ref, when time.Time) {
 }
 
 func (c *Corpus) VerifPermanodeMeta(pn blob.Ref) *PermanodeMeta { return c.permanodes[pn] }
+
+// VerifIndexWithDeletes returns an Index whose deletion cache holds the given
+// (target, deleter) pairs, newest first per target as the real code keeps them.
+func VerifIndexWithDeletes(targets, deleters []blob.Ref, whens []time.Time) *Index {
+	x := &Index{deletes: newDeletionCache()}
+	for i := range targets {
+		l := append(x.deletes.m[targets[i]], deletion{deleter: deleters[i], when: whens[i]})
+		sort.Sort(sort.Reverse(byDeletionDate(l)))
+		x.deletes.m[targets[i]] = l
+	}
+	return x
+}
